@@ -206,6 +206,7 @@ type Service struct {
 	workcond       sync.Cond              // Cond waited on by workers and signaled when work is added to workqueue
 	wg             sync.WaitGroup         // WaitGroup for all workers
 	mu             sync.Mutex             // Mutex to protect rwork map
+	ncmu           sync.RWMutex           // Mutex to protect nc from being cleared by Shutdown while in use
 	logger         logger.Logger          // Logger
 	queueGroup     string                 // Queue group to use with CharQueueSubscribe
 	resetResources []string               // List of resource name patterns used on system.reset for resources. Defaults to serviceName+">"
@@ -341,7 +342,20 @@ func (s *Service) ProtocolVersion() string {
 //
 //	nc := service.Conn().(*nats.Conn)
 func (s *Service) Conn() Conn {
-	return s.nc
+	s.ncmu.RLock()
+	nc := s.nc
+	s.ncmu.RUnlock()
+	return nc
+}
+
+// publish publishes the payload using the service connection. It returns
+// errNotStarted if the connection has been cleared by Shutdown.
+func (s *Service) publish(subj string, payload []byte) error {
+	nc := s.Conn()
+	if nc == nil {
+		return errNotStarted
+	}
+	return nc.Publish(subj, payload)
 }
 
 // infof logs a formatted info entry.
@@ -663,7 +677,9 @@ func (s *Service) serve(nc Conn) error {
 	// Initialize fields
 	inCh := make(chan *nats.Msg, s.inChannelSize)
 	workCh := make(chan *work, 1)
+	s.ncmu.Lock()
 	s.nc = nc
+	s.ncmu.Unlock()
 	s.inCh = inCh
 	s.workcond = sync.Cond{L: &s.mu}
 	s.workbuf = make([]*work, s.inChannelSize)
@@ -718,7 +734,9 @@ func (s *Service) Shutdown() error {
 	verifPoint("shutdown.drained", nil)
 
 	s.inCh = nil
+	s.ncmu.Lock()
 	s.nc = nil
+	s.ncmu.Unlock()
 
 	atomic.StoreInt32(&s.state, stateStopped)
 
@@ -1084,7 +1102,7 @@ func (s *Service) event(subj string, data interface{}) {
 	if err == nil {
 		verifPoint("publish.enter", subj)
 		s.tracef("<-- %s: %s", subj, payload)
-		err = s.nc.Publish(subj, payload)
+		err = s.publish(subj, payload)
 	}
 	if err != nil {
 		s.errorf("Error sending event %s: %s", subj, err)
@@ -1096,7 +1114,7 @@ func (s *Service) event(subj string, data interface{}) {
 func (s *Service) rawEvent(subj string, payload []byte) {
 	verifPoint("publish.enter", subj)
 	s.tracef("<-- %s: %s", subj, payload)
-	err := s.nc.Publish(subj, payload)
+	err := s.publish(subj, payload)
 	if err != nil {
 		s.errorf("Error sending event %s: %s", subj, err)
 	}
